@@ -182,6 +182,22 @@ fn run_case(c: &Case, out: &mut dyn Write) {
     let serial_view = final_view(&mut t);
     let same = conc_view == serial_view;
     let diff = if same { Value::Null } else { json!(semantic::first_diff(&serial_view, &conc_view, "")) };
+    // what exactly differs (kept in the observation so that a replay file is self-explaining)
+    let detail = if same { Value::Null } else {
+        let pick = |v: &Value| json!({
+            "vrps": v.get("rp").and_then(|r| r.get("vrps")).cloned().unwrap_or(Value::Null),
+            "server": v.get("server").map(|s| s.as_object().map(|m| m.iter().map(|(k, x)| (k.clone(), json!(x.as_array().map(|a| a.len()).unwrap_or(0)))).collect::<serde_json::Map<_, _>>()).unwrap_or_default()).unwrap_or_default(),
+            "tasks": v.get("tasks").cloned().unwrap_or(Value::Null),
+            "routes": v.get("cas").and_then(|c| c.as_object()).map(|m| m.iter().map(|(k, x)| (k.clone(), x.get("routes").cloned().unwrap_or(Value::Null))).collect::<serde_json::Map<_, _>>()).unwrap_or_default(),
+            "roa_objects": v.get("cas").and_then(|c| c.as_object()).map(|m| m.iter().map(|(k, x)| (k.clone(), x.get("resources").and_then(|r| r.as_object()).map(|rm| rm.values().map(|rc| rc.get("roas").cloned().unwrap_or(Value::Null)).collect::<Vec<_>>()).unwrap_or_default().into())).collect::<serde_json::Map<String, Value>>()).unwrap_or_default(),
+            "status": v.get("status").cloned().unwrap_or(Value::Null),
+            "server_full": v.get("server").cloned().unwrap_or(Value::Null),
+            "objects_full": v.get("objects").cloned().unwrap_or(Value::Null),
+        });
+        // the raw (token-preserving) observation of the concurrent run as well
+        let _ = std::fs::write(format!("/tmp/kverif/conc-divergence-{}.json", c.id), serde_json::to_string(&json!({"serial": serial_view, "conc": conc_view})).unwrap_or_default());
+        json!({"serial": pick(&serial_view), "conc": pick(&conc_view)})
+    };
     let rets_same = results == serial_rets;
     let mut ret_diffs: Vec<Value> = vec![];
     for (i, v) in &results {
@@ -204,7 +220,7 @@ fn run_case(c: &Case, out: &mut dyn Write) {
         "workers_ms": workers_ms, "sched_stopped": sched_done, "edges": edges_json,
         "rets": results.iter().map(|(i, v)| (i.to_string(), json!(v))).collect::<serde_json::Map<_, _>>(),
         "serial_rets": serial_rets.iter().map(|(i, v)| (i.to_string(), json!(v))).collect::<serde_json::Map<_, _>>(),
-        "rets_same": rets_same, "ret_diffs": ret_diffs, "state_same": same, "diff": diff,
+        "rets_same": rets_same, "ret_diffs": ret_diffs, "state_same": same, "diff": diff, "detail": detail,
         "content_serial": content_serial, "content_serial_after_idle_update": content_serial_after,
         "staged_pending": staged_pending, "disk_serial": disk_serial, "written_serials": written_serials,
         "rrdp_task_present": rrdp_task_present,
